@@ -33,6 +33,8 @@ func layoutZoo() map[string]string {
 
 func baseZoo() map[string]string {
 	return map[string]string{
+		// comments and line breaks inside package-qualified identifiers
+		"qualified-identifier-comments": "package p\n\nimport (\n\t\"fmt\"\n\t\"os\"\n)\n\nfunc f() {\n\tfmt. // why\n\t\tPrintln(\"a\")\n\tfmt.\n\t\t// own line\n\t\tPrintln(\"b\")\n\tfmt. /* blk */ Println(os. // x\n\t\t\t\tArgs)\n\tfmt.\n\t\tPrintln(os.\n\t\t\tArgs, // y\n\t\t)\n\t_ = []interface{}{\n\t\t// before\n\t\tos.Stdin, // after\n\t\tos. /* in */ Stdout,\n\t}\n}\n",
 		"select-hanging": `package p
 
 func f(a, b chan int) {
